@@ -284,22 +284,29 @@ func (i *Interpreter) directorBackendRandom(dc *value.DirectorConfig) (*value.Ba
 			continue
 		}
 
-		lottery := make([]int, 1000)
-		var current int
-		for index, v := range dc.Backends {
+		// Draw a lot in proportion to the weight of healthy backends.
+		// Any weight is acceptable because the lot is not a table which has limited slots
+		var total float64
+		for _, v := range dc.Backends {
 			// Skip if backend is unhealthy
 			if !v.Backend.Healthy.Load() {
 				continue
 			}
-			for i := 0; i < v.Weight; i++ {
-				lottery[current] = index
-				current++
-			}
+			total += float64(v.Weight)
 		}
 
-		rand.New(rand.NewSource(time.Now().Unix()))
-		lottery = lottery[0:current]
-		item := dc.Backends[lottery[rand.Intn(current)]]
+		var item *value.DirectorConfigBackend
+		lot := rand.Float64() * total
+		for _, v := range dc.Backends {
+			if !v.Backend.Healthy.Load() {
+				continue
+			}
+			item = v
+			if lot < float64(v.Weight) {
+				break
+			}
+			lot -= float64(v.Weight)
+		}
 
 		return item.Backend, nil
 	}
